@@ -104,7 +104,7 @@ Apply(r) ==
                                                    ELSE heap[o]]
                      ELSE heap
                RECURSIVE AllocOuts(_, _)
-               AllocOuts(h, vals) == IF vals = <<>> THEN h ELSE AllocOuts(Alloc(h, Head(vals), r), Tail(vals))
+               AllocOuts(h, vals) == IF vals = <<>> THEN h ELSE AllocOuts(Alloc(h, Head(vals), "run"), Tail(vals))
                h2 == AllocOuts(h1, a.value)
            IN /\ heap' = h2
               /\ runs' = [runs EXCEPT ![r].produced = [i \in 1..Len(a.value) |-> Len(h1) + i], ![r].stage = "bind"]
@@ -128,7 +128,8 @@ RunEnd(r) ==
 \* the caller collects the result (or error) of a finished Run; the Run slot becomes free again
 Collect(r) ==
    /\ runs[r].st \in {"ok", "failed"}
-   /\ hist' = Append(hist, [run |-> r, ins |-> runs[r].ins, ok |-> runs[r].st = "ok", err |-> runs[r].err,
+   /\ hist' = Append(hist, [run |-> r, ins |-> runs[r].ins, ok |-> runs[r].st = "ok", err |-> runs[r].err, resobjs |-> runs[r].res,
+                            invals |-> [n \in DOMAIN runs[r].ins |-> heap[runs[r].ins[n]].t],
                             out |-> [i \in 1..Len(runs[r].res) |-> heap[runs[r].res[i]].t]])
    /\ runs' = [runs EXCEPT ![r] = IdleRun]
    /\ UNCHANGED <<heap, model, params>>
